@@ -139,8 +139,9 @@ type c09Case struct {
 }
 
 func c09Oracle(c c09Case) error {
-	ref := scanWith(c.X, nil, plainOpts())
-	got := scanWith(c.X, &c.S, plainOpts())
+	opts, _ := variantOpts(c.X)
+	ref := scanWith(c.X, nil, opts)
+	got := scanWith(c.X, &c.S, opts)
 	return sameOutcome(ref, got)
 }
 
@@ -152,12 +153,14 @@ type c09StreamCase struct {
 
 func c09StreamOracle(c c09StreamCase) error {
 	x := c.S.Bytes()
-	h := resumeLoop(newSchedReader(x, c.Sc), plainOpts(), len(c.S.Items)+3)
+	opts, loose := variantOpts(x)
+	defer looseFor(loose)()
+	h := resumeLoop(newSchedReader(x, c.Sc), opts, len(c.S.Items)+3)
 	if err := streamTruth(&c.S, &h, true); err != nil {
 		return err
 	}
 	// And single call differential.
-	return sameOutcome(scanWith(x, nil, plainOpts()), scanWith(x, &c.Sc, plainOpts()))
+	return sameOutcome(scanWith(x, nil, opts), scanWith(x, &c.Sc, opts))
 }
 
 func genSched(t *rapid.T, n int) Sched {
